@@ -38,7 +38,7 @@ namespace vc
 
     // element type hooks (record; elem_construct throws verif_injected when the countdown hits)
     void elem_construct(const void* self, const char* kind, const void* src, std::size_t sz);
-    void elem_destroy(const void* self) noexcept;
+    void elem_destroy(const void* self, bool intact) noexcept;
     int  elem_serial(const void* self);
 
     // ---- instrumented element type -----------------------------------------------------------
@@ -47,35 +47,59 @@ namespace vc
     {
         alignas(Align) unsigned char v[Size];
 
+        // the element carries its own integrity mark: a destructor that runs after the storage was given
+        // back (and filled by the library's debug fill) sees a broken mark
+        void seal() noexcept
+        {
+            if (Size >= 2)
+                v[Size - 1] = static_cast<unsigned char>(v[0] ^ 0x5A);
+        }
+        bool intact() const noexcept
+        {
+            unsigned char c = v[0];
+            if (c == 0xFB || c == 0xDD || c == 0xCD || c == 0xED || c == 0xFD || c == 0xAB)
+                return false; // a debug fill pattern (the driver never stores these values)
+            return Size < 2 || v[Size - 1] == static_cast<unsigned char>(c ^ 0x5A);
+        }
+
         Elem() : v{}
         {
             elem_construct(this, "default", nullptr, Size);
             v[0] = 0x11;
+            seal();
         }
         explicit Elem(int val) : v{}
         {
             elem_construct(this, "value", nullptr, Size);
             v[0] = static_cast<unsigned char>(val & 0x7f);
+            // keep clear of values whose moved-from mark (| 0x80) would equal a debug fill pattern
+            if (v[0] == 0x7B || v[0] == 0x5D || v[0] == 0x4D || v[0] == 0x6D || v[0] == 0x7D || v[0] == 0x2B)
+                v[0] ^= 0x01;
+            seal();
         }
         Elem(const Elem& o) : v{}
         {
             elem_construct(this, "copy", &o, Size);
             v[0] = o.v[0];
+            seal();
         }
         Elem(Elem&& o) : v{} // deliberately not noexcept: a move may fail too
         {
             elem_construct(this, "move", &o, Size);
             v[0] = o.v[0];
+            seal();
             o.v[0] = static_cast<unsigned char>(o.v[0] | 0x80);
+            o.seal();
         }
         Elem& operator=(const Elem& o)
         {
             v[0] = o.v[0];
+            seal();
             return *this;
         }
         ~Elem()
         {
-            elem_destroy(this);
+            elem_destroy(this, intact());
         }
         unsigned val() const
         {
